@@ -7,6 +7,7 @@ import threading
 from . import c14 as C14
 from . import c18gc as GCX
 from . import c18intro as INTRO
+from . import c18stale as STALE
 from . import c18lib as L
 from . import c18paths
 from . import c18raw as RAW
@@ -15,7 +16,7 @@ from . import subserver as SUB
 PROPERTY = "C18"
 DRIVER = "TraitsVerif/Driver/Persist.lean"
 PROPS_MODULES = ["TraitsVerif.Props.C18", "TraitsVerif.Props.C18GC"]
-TRANSLATORS = ["ctables", "crefpaths", "ctraverse"]
+TRANSLATORS = ["ctables", "crefpaths", "ctraverse", "crefborrows"]
 RULE = ("(a) tables: proofs by `decide` over the tables/guards translated from the working tree's ctraits.c; T cases "
         "(CTrait(kind) + set_validate/delegate/_set_property/post_setattr with in/out-of-range integers, then "
         "__getstate__ indices and __setstate__) compare the FuncIndex model with the real extension in a subprocess. "
@@ -67,6 +68,11 @@ TRUSTED = [
     "PyException_SetCause) or STORE (PyTuple_SET_ITEM, PyList_SET_ITEM), which are reference-neutral - are trusted, "
     "as are: struct fields keep their value across calls, loops unrolled 0-2 times, target and source of trait_clone "
     "not aliased",
+    "translator crefborrows.py (stale-borrow analysis, same reader): the table of calls that can run arbitrary Python "
+    "code (crefpaths.ACALL / ACALL_FIELDS closed over the call graph of ctraits.c; Py_DECREF / Py_XDECREF / Py_CLEAR "
+    "and dictionary operations on attribute names deliberately left out), tuples are immutable, a caller holds its "
+    "arguments for the whole call, and CALLER_PROTECTS: the caller of validate_trait_complex_body holds a reference to "
+    "trait->py_validate for the whole call (checked mechanically at every call site of that function)",
     "translator ctraverse.py (regex reader, fails closed): struct members declared `Py...Object *` are the owned "
     "references of the type; tp_traverse / tp_clear bodies are flat lists of Py_VISIT / Py_CLEAR statements (anything "
     "else is refused); the order of `exit` / `store` events of the setters is TEXT order, not control-flow order",
@@ -220,6 +226,8 @@ def generate(rng, tier):
     for c in GCX.gen_dpx(rng, tier):
         yield c
     for c in INTRO.gen_intro():
+        yield c
+    for c in STALE.gen_stale():
         yield c
     for _ in range(nT):
         yield C14.random_T(rng)
@@ -400,6 +408,8 @@ def run_impl(case):
         return run_gcx(case)
     if case.startswith("#INTRO "):
         return INTRO.run_intro(case)
+    if case.startswith("#STALE "):
+        return STALE.run_stale(case)
     if case.startswith("W|"):
         return run_w(case)
     if case.startswith("A|"):
